@@ -537,3 +537,1048 @@ class FnGen:
         if t == "func(int) int":
             return "idI" if prof.calls >= 1 else "nil"
         return self.zero_of(t)
+
+    # ---------------------------------------------------------------- statements
+    def prof_any(self):
+        k = self.rng.below(10)
+        if k < 4:
+            return PA()
+        if k < 8:
+            return PB1()
+        return PB2()
+
+    def new_var(self, ty, expr, private=None, assignable=True):
+        r = self.rng
+        if private is None:
+            private = not r.chance(2, 5)
+        name = self.fresh()
+        self.emit("%s := %s" % (name, expr))
+        self.emit("_ = %s" % name)
+        v = Var(name, ty, private=private, assignable=assignable)
+        self.declare(v)
+        return v
+
+    def s_decl(self, d):
+        r = self.rng
+        k = r.below(100)
+        prof = self.prof_any()
+        if k < 45:
+            ty = r.choice(["int", "int", "int", "int", "bool", "string", "string"] + SMALL_INT_TYPES[:4] + ["int64", "uint32"])
+            self.new_var(ty, self.wrapty(ty, self.e(ty, 2, prof)))
+        elif k < 55:
+            n = 2 + r.below(3)
+            elems = ", ".join(self.e_int("int", 1, prof.nopanic()) for _ in range(r.below(n + 1)))
+            self.new_var("[%d]int" % n, "[%d]int{%s}" % (n, elems))
+        elif k < 67:
+            n = r.below(4)
+            if r.chance(1, 4):
+                self.new_var("[]int", "make([]int, %d, %d)" % (n, n + r.below(3)))
+            else:
+                elems = ", ".join(self.e_int("int", 1, prof.nopanic()) for _ in range(n))
+                self.new_var("[]int", "[]int{%s}" % elems)
+        elif k < 77:
+            self.new_var("S0", "S0{A: %s, B: %s, C: %s}" % (self.e_int("int", 1, prof.nopanic()),
+                                                            self.e_str(1, prof.nopanic()), self.e_bool(1, prof.nopanic())))
+        elif k < 84:
+            c = [v for v in self.visible() if v.ty == "int" and not v.private and v.assignable and not v.is_global]
+            if c:
+                self.new_var("*int", "&" + r.choice(c).name, private=False)
+            else:
+                name = self.fresh()
+                self.emit("var %s *int" % name)
+                self.emit("_ = %s" % name)
+                self.declare(Var(name, "*int", private=False))
+        elif k < 89:
+            c = [v for v in self.visible() if v.ty == "S0" and not v.private]
+            if c:
+                self.new_var("*S0", "&" + r.choice(c).name, private=False)
+            else:
+                self.new_var("*S0", "&S0{A: %s}" % self.e_int("int", 1, PC()), private=False)
+        elif k < 95:
+            self.new_var("I0", "mk(%s)" % self.e_int("int", 1, PB1()), private=True)
+        else:
+            self.new_var("any", "anyOf(%s)" % self.e_int("int", 1, PB1()), private=True)
+
+    def wrapty(self, ty, e):
+        # `v := k3` infers the pool variable's type, `v := "a"` string etc.; comparisons give bool
+        return e if ty in ("bool", "string") or ty in INT_RANGE else e
+
+    def mark_write(self, v):
+        if not v.private or v.is_global:
+            self.eff = True
+
+    def s_assign(self, d):
+        r = self.rng
+        cands = [v for v in self.visible() if v.assignable and (v.ty in INT_RANGE or v.ty in ("bool", "string"))]
+        if not cands:
+            return self.s_decl(d)
+        v = r.choice(cands)
+        prof = self.prof_any()
+        self.mark_write(v)
+        k = r.below(10)
+        if v.ty in INT_RANGE and k < 4:
+            if not v.private and prof.calls >= 2:
+                prof = PB1()
+            op = r.choice(["+=", "-=", "*=", "^=", "|=", "&=", "<<=", ">>="])
+            if op in ("<<=", ">>="):
+                self.emit("%s %s %d" % (v.name, op, r.below(7)))
+            else:
+                self.emit("%s %s %s" % (v.name, op, self.e_int(v.ty, 2, prof)))
+        elif v.ty in INT_RANGE and k < 5:
+            self.emit("%s%s" % (v.name, r.choice(["++", "--"])))
+        elif v.ty == "string" and k < 3:
+            if not v.private and prof.calls >= 2:
+                prof = PB1()
+            self.emit("%s += %s" % (v.name, self.e_str(1, prof)))
+        else:
+            self.emit("%s = %s" % (v.name, self.e(v.ty, 2, prof)))
+
+    def s_agg(self, d):
+        r = self.rng
+        c = []
+        for v in self.visible():
+            if v.ty == "S0":
+                c.append(("field", v))
+            elif v.ty.startswith("[") and not v.ty.startswith("[]") and v.assignable:
+                c.append(("arr", v))
+            elif v.ty == "[]int":
+                c += [("sl", v), ("app", v), ("sub", v), ("copy", v)]
+            elif v.ty == "*int":
+                c.append(("deref", v))
+            elif v.ty == "*S0":
+                c.append(("pfield", v))
+        if not c:
+            return self.s_decl(d)
+        kind, v = r.choice(c)
+        self.mark_write(v)
+        if kind == "field":
+            f = r.below(4)
+            if f == 0:
+                self.emit("%s.A = %s" % (v.name, self.e_int("int", 2, PA())))
+            elif f == 1:
+                self.emit("%s.B = %s" % (v.name, self.e_str(1, PA())))
+            elif f == 2:
+                self.emit("%s.C = %s" % (v.name, self.e_bool(1, PA())))
+            else:
+                prof = PA()
+                i, _ = self.small_index(3, 2, prof)
+                self.emit("%s.D[%s] = %s" % (v.name, i, self.e_int("int", 1, prof)))
+        elif kind == "arr":
+            n = int(v.ty[1:v.ty.index("]")])
+            prof = PA()
+            i, _ = self.small_index(n, 2, prof)
+            self.emit("%s[%s] = %s" % (v.name, i, self.e_int("int", 1, prof)))
+        elif kind == "sl":
+            self.eff = True
+            i = self.e_int("int", 1, PC())
+            if r.chance(2, 3):
+                self.emit("if len(%s) > 0 {" % v.name)
+                self.emit("\t%s[int(uint(%s) %% uint(len(%s)))] = %s" % (v.name, i, v.name, self.e_int("int", 1, PC())))
+                self.emit("}")
+            else:
+                self.emit("%s[%s] = %s" % (v.name, i, self.e_int("int", 1, PC())))
+        elif kind == "app":
+            n = 1 + r.below(2)
+            self.emit("%s = append(%s, %s)" % (v.name, v.name, ", ".join(self.e_int("int", 1, PC()) for _ in range(n))))
+        elif kind == "sub":
+            a = r.below(3)
+            form = r.below(3)
+            if form == 0:
+                e = "%s[%d:]" % (v.name, a)
+            elif form == 1:
+                e = "%s[:%d]" % (v.name, a)
+            else:
+                e = "%s[%d:%d]" % (v.name, a, a + r.below(3))
+            if r.chance(1, 2):
+                self.emit("if len(%s) >= %d {" % (v.name, a + 3))
+                self.ind += 1
+                nv = self.fresh()
+                self.emit("%s := %s" % (nv, e))
+                self.emit("obsI(len(%s))" % nv)
+                self.emit("if len(%s) > 0 {" % nv)
+                self.emit("\t%s[0] = %s" % (nv, self.e_int("int", 1, PC())))
+                self.emit("}")
+                self.ind -= 1
+                self.emit("}")
+            else:
+                self.new_var("[]int", e, private=False)
+        elif kind == "copy":
+            o = r.choice(self.vars_of("[]int"))
+            self.emit("obsI(copy(%s, %s))" % (v.name, o.name))
+        elif kind == "deref":
+            self.eff = True
+            if r.chance(3, 4):
+                self.emit("if %s != nil {" % v.name)
+                self.emit("\t*%s = %s" % (v.name, self.e_int("int", 2, PC())))
+                self.emit("}")
+            else:
+                self.emit("*%s = %s" % (v.name, self.e_int("int", 1, PC())))
+        elif kind == "pfield":
+            self.eff = True
+            self.emit("%s.A = %s" % (v.name, self.e_int("int", 2, PC())))
+
+    def s_obs(self, d):
+        r = self.rng
+        k = r.below(10)
+        prof = PA() if r.chance(1, 2) else PC()
+        if k < 6:
+            self.emit("obsI(%s)" % self.wrap_int(self.pick_int_expr(prof)))
+        elif k < 8:
+            self.emit("obsS(%s)" % self.e_str(2, prof))
+        else:
+            self.emit("obsB(%s)" % self.e_bool(2, prof))
+
+    def pick_int_expr(self, prof):
+        r = self.rng
+        ty = r.choice(["int", "int", "int"] + SMALL_INT_TYPES)
+        return ty, self.e_int(ty, 2, prof)
+
+    def wrap_int(self, te):
+        ty, e = te
+        return e if ty == "int" else "int(%s)" % e
+
+    def s_call(self, d):
+        r = self.rng
+        k = r.below(100)
+        if k < 20:
+            c = [v for v in self.visible() if v.ty == "int" and not v.private and v.assignable]
+            if c:
+                x = r.choice(c)
+                self.eff = True
+                self.emit("obsI(bump(&%s, %s))" % (x.name, self.e_int("int", 1, PB2())))
+                return
+        if k < 32:
+            c = [v for v in self.visible() if v.ty == "S0" and not v.private]
+            if c:
+                x = r.choice(c)
+                self.eff = True
+                if r.chance(1, 2):
+                    self.emit("setS(&%s, %s)" % (x.name, self.e_int("int", 1, PB2())))
+                else:
+                    self.emit("%s.Inc(%s)" % (x.name, self.e_int("int", 1, PB2())))
+                return
+        if k < 42:
+            c = self.vars_of("[]int")
+            if c:
+                self.eff = True
+                self.emit("fill(%s, %s)" % (r.choice(c).name, self.e_int("int", 1, PB2())))
+                return
+        if k < 52:
+            c = self.vars_of("I0")
+            if c:
+                self.eff = True
+                self.emit("obsI(%s.M(%s))" % (r.choice(c).name, self.e_int("int", 1, PB2())))
+                return
+        if k < 60:
+            c = self.vars_of("*S0")
+            if c:
+                x = r.choice(c)
+                self.eff = True
+                self.emit("if %s != nil {" % x.name)
+                self.emit("\t%s.Inc(%s)" % (x.name, self.e_int("int", 1, PB2())))
+                self.emit("\tobsI(%s.Sum())" % x.name)
+                self.emit("}")
+                return
+        hs = self.pg.helpers
+        if hs:
+            h = r.choice(hs)
+            prof = PB2() if h.eff else PB1()
+            call = self.call(h, 2, prof)
+            if len(h.results) == 0:
+                self.emit(call)
+            elif len(h.results) == 1:
+                t = h.results[0]
+                self.new_var(t, call)
+            else:
+                names = [self.fresh() for _ in h.results]
+                self.emit("%s := %s" % (", ".join(names), call))
+                for n, t in zip(names, h.results):
+                    self.emit("_ = %s" % n)
+                    self.declare(Var(n, t, private=not r.chance(1, 3)))
+            return
+        self.s_obs(d)
+
+    def s_tuple(self, d):
+        r = self.rng
+        c = [v for v in self.visible() if v.assignable and v.private and v.ty == "int"]
+        if len(c) < 2:
+            return self.s_assign(d)
+        a, b = r.shuffle(c)[:2]
+        k = r.below(3)
+        if k == 0:
+            self.emit("%s, %s = %s, %s" % (a.name, b.name, b.name, a.name))
+        elif k == 1:
+            self.emit("%s, %s = %s, %s" % (a.name, b.name, self.e_int("int", 1, PC()), self.e_int("int", 1, PC())))
+        else:
+            self.emit("%s, %s = %s+1, %s-%s" % (a.name, b.name, b.name, a.name, b.name))
+
+    def cond(self, d=2):
+        prof = self.prof_any()
+        return self.e_bool(d, prof)
+
+    def s_if(self, d):
+        r = self.rng
+        self.emit("if %s {" % self.cond())
+        self.body(d - 1, 1 + r.below(3))
+        k = r.below(10)
+        if k < 4:
+            self.emit("} else {")
+            self.body(d - 1, 1 + r.below(3))
+        elif k < 6:
+            self.emit("} else if %s {" % self.cond(1))
+            self.body(d - 1, 1 + r.below(2))
+            if r.chance(1, 2):
+                self.emit("} else {")
+                self.body(d - 1, 1 + r.below(2))
+        self.emit("}")
+
+    def body(self, d, n):
+        self.push()
+        self.ind += 1
+        for _ in range(n):
+            self.stmt(d)
+        self.ind -= 1
+        self.pop()
+
+    def s_for(self, d):
+        r = self.rng
+        k = r.below(100)
+        hdr_at = len(self.lines)
+        label = self.fresh("L")
+        self.push()
+        priv = not r.chance(1, 3)
+        if k < 40:
+            i = self.fresh("i")
+            n = 1 + r.below(5)
+            bound = "%d" % n
+            iv = [v for v in self.vars_of("int", PC()) if v.private]
+            if iv and r.chance(1, 3):
+                bound = "int(uint(%s) %% %d)" % (r.choice(iv).name, n + 1)
+            if r.chance(1, 5):
+                hdr = "for %s := %s - 1; %s >= 0; %s-- {" % (i, bound, i, i)
+            else:
+                hdr = "for %s := 0; %s < %s; %s++ {" % (i, i, bound, i)
+            self.declare(Var(i, "int", private=priv, assignable=False))
+        elif k < 52:
+            i = self.fresh("i")
+            hdr = "for %s := range %d {" % (i, 1 + r.below(4))
+            self.declare(Var(i, "int", private=priv, assignable=False))
+        elif k < 67:
+            c = self.vars_of("[]int") + [v for v in self.visible() if v.ty.startswith("[") and v.ty.endswith("]int")]
+            if not c:
+                self.pop()
+                return self.s_if(d)
+            s = r.choice(c)
+            i, x = self.fresh("i"), self.fresh("x")
+            hdr = "for %s, %s := range %s {" % (i, x, s.name)
+            self.declare(Var(i, "int", private=priv, assignable=False))
+            self.declare(Var(x, "int", private=priv, assignable=True))
+            self.lines.append(None)  # placeholder replaced below
+            self.lines.pop()
+        elif k < 80:
+            c = self.vars_of("string")
+            i, x = self.fresh("i"), self.fresh("c")
+            src = r.choice(c).name if c and r.chance(3, 4) else go_str(r.choice(STR_POOL))
+            hdr = "for %s, %s := range %s {" % (i, x, src)
+            self.declare(Var(i, "int", private=priv, assignable=False))
+            self.declare(Var(x, "int32", private=priv, assignable=True))
+        else:
+            # while-style loop with a fuel counter
+            i = self.fresh("w")
+            hdr = "for %s := 0; %s < %d && %s; %s++ {" % (i, i, 2 + r.below(4), self.cond(1), i)
+            self.declare(Var(i, "int", private=True, assignable=False))
+        self.emit(hdr)
+        self.ind += 1
+        for v in self.scopes[-1]:
+            self.emit("_ = %s" % v.name)
+        self.loops.append(["loop", label, False])
+        self.push()
+        for _ in range(1 + r.below(3)):
+            self.stmt(d - 1)
+        self.pop()
+        used = self.loops.pop()[2]
+        self.ind -= 1
+        self.emit("}")
+        self.pop()
+        if used:
+            self.lines[hdr_at] = "\t" * self.ind + label + ":\n" + self.lines[hdr_at]
+
+    def s_jump(self, d):
+        r = self.rng
+        loops = [l for l in self.loops if l[0] == "loop"]
+        if not self.loops:
+            return self.s_obs(d)
+        inner = self.loops[-1]
+        self.emit("if %s {" % self.cond(1))
+        self.ind += 1
+        if r.chance(1, 2):
+            self.s_obs(d)
+        k = r.below(10)
+        if loops and k < 4 and len(loops) >= 1:
+            # labelled jump to any enclosing loop
+            l = r.choice(loops)
+            l[2] = True
+            self.emit("%s %s" % (r.choice(["break", "continue"]), l[1]))
+        elif inner[0] == "loop":
+            self.emit(r.choice(["break", "continue"]))
+        elif loops and r.chance(1, 2):
+            l = loops[-1]
+            l[2] = True
+            self.emit("continue %s" % l[1])
+        else:
+            self.emit("break")
+        self.ind -= 1
+        self.emit("}")
+
+    def s_switch(self, d):
+        r = self.rng
+        k = r.below(10)
+        self.loops.append(["switch", None, False])
+        if k < 5:
+            tag = self.e_int("int", 2, self.prof_any())
+            if r.chance(1, 3):
+                x = self.fresh()
+                self.emit("switch %s := %s; %s & 3 {" % (x, tag, x))
+            else:
+                self.emit("switch int(uint(%s) %% 5) {" % tag)
+            ncl = 2 + r.below(3)
+            consts = r.shuffle(list(range(6)))
+            dpos = r.below(ncl + 1) if r.chance(2, 3) else -1
+            ci = 0
+            for c in range(ncl + (1 if dpos >= 0 else 0)):
+                last = c == ncl + (1 if dpos >= 0 else 0) - 1
+                if c == dpos:
+                    self.emit("default:")
+                else:
+                    if r.chance(1, 4) and ci + 1 < len(consts):
+                        self.emit("case %d, %d:" % (consts[ci], consts[ci + 1]))
+                        ci += 2
+                    else:
+                        self.emit("case %d:" % consts[ci])
+                        ci += 1
+                self.body(d - 1, 1 + r.below(2))
+                if not last and r.chance(1, 3):
+                    self.emit("\tfallthrough")
+            self.emit("}")
+        elif k < 8:
+            self.emit("switch {")
+            for c in range(1 + r.below(3)):
+                self.emit("case %s:" % self.cond(2))
+                self.body(d - 1, 1 + r.below(2))
+                if r.chance(1, 4):
+                    self.emit("\tfallthrough")
+            self.emit("default:")
+            self.body(d - 1, 1)
+            self.emit("}")
+        elif k < 9:
+            tv = self.fresh("tv")
+            avs = self.vars_of("any")
+            src = r.choice(avs).name if avs else "anyOf(%s)" % self.e_int("int", 1, PB1())
+            self.emit("switch %s := %s.(type) {" % (tv, src))
+            order = r.shuffle(["int", "string", "boolnil", "default"])
+            self.emit("case int8:")
+            self.emit("\tobsI(int(%s))" % tv)
+            for o in order:
+                if o == "int":
+                    self.emit("case int:")
+                    self.push()
+                    self.declare(Var(tv, "int", private=True, assignable=True))
+                    self.emit("\tobsI(%s)" % tv)
+                    self.body(d - 1, 1)
+                    self.pop()
+                elif o == "string":
+                    self.emit("case string:")
+                    self.push()
+                    self.declare(Var(tv, "string", private=True, assignable=True))
+                    self.emit("\tobsS(%s)" % tv)
+                    self.body(d - 1, 1)
+                    self.pop()
+                elif o == "boolnil":
+                    self.emit("case bool, nil:")
+                    self.emit("\tobsB(%s == nil)" % tv)
+                elif r.chance(1, 2):
+                    self.emit("default:")
+                    self.body(d - 1, 1)
+            self.emit("}")
+        else:
+            ivs = self.vars_of("I0")
+            src = r.choice(ivs).name if ivs else "mk(%s)" % self.e_int("int", 1, PB1())
+            tv = self.fresh("tv")
+            self.emit("switch %s := %s.(type) {" % (tv, src))
+            self.emit("case T0:")
+            self.emit("\tobsI(%s.k)" % tv)
+            self.emit("case *T1:")
+            self.emit("\tobsI(%s.n + %s.k)" % (tv, tv))
+            self.body(d - 1, 1)
+            if r.chance(1, 2):
+                self.emit("case E0:")
+                self.emit("\tobsI(int(%s))" % tv)
+            else:
+                self.emit("case I0:")
+                self.emit("\tobsI(%s.M(1))" % tv)
+            self.emit("}")
+        self.loops.pop()
+
+    def s_goto(self, d):
+        r = self.rng
+        saved = self.loops
+        if r.chance(1, 2):
+            # backward goto forming a loop
+            g = self.fresh("g")
+            lab = self.fresh("G")
+            self.emit("{")
+            self.ind += 1
+            self.emit("%s := 0" % g)
+            self.lines.append("\t" * (self.ind - 1) + lab + ":")
+            self.push()
+            self.declare(Var(g, "int", private=True, assignable=False))
+            self.loops = []   # break/continue may not cross out of the goto loop's block structure
+            self.emit("{")
+            self.body(d - 1, 1 + r.below(3))
+            self.emit("}")
+            self.loops = saved
+            self.emit("%s++" % g)
+            self.emit("if %s < %d {" % (g, 1 + r.below(4)))
+            self.emit("\tgoto %s" % lab)
+            self.emit("}")
+            self.pop()
+            self.ind -= 1
+            self.emit("}")
+        else:
+            lab = self.fresh("G")
+            self.emit("if %s {" % self.cond(1))
+            if r.chance(1, 2):
+                self.ind += 1
+                self.s_obs(d)
+                self.ind -= 1
+            self.emit("\tgoto %s" % lab)
+            self.emit("}")
+            self.emit("{")
+            self.body(d - 1, 1 + r.below(2))
+            self.emit("}")
+            self.lines.append("\t" * (self.ind - 1) + lab + ":")
+            self.s_obs(d)
+
+    def s_addr(self, d):
+        """address-taken local that escapes on some paths only (lift.go's split alloc)"""
+        r = self.rng
+        x = self.fresh()
+        ty = "int"
+        self.emit("%s := %s" % (x, self.e_int(ty, 2, PA())))
+        v = Var(x, ty, private=False)
+        self.declare(v)
+        for _ in range(r.below(2)):
+            self.emit("%s %s %s" % (x, r.choice(["+=", "^=", "*="]), self.e_int(ty, 1, PC())))
+        if r.chance(1, 3):
+            self.emit("obsI(%s)" % x)
+        shape = r.below(5)
+        if shape == 0:
+            self.emit("if %s {" % self.cond(1))
+            self.emit("\tobsI(bump(&%s, %s))" % (x, self.e_int("int", 1, PB2())))
+            self.emit("}")
+        elif shape == 1:
+            self.emit("if %s {" % self.cond(1))
+            self.ind += 1
+            q = self.fresh("q")
+            self.emit("%s := &%s" % (q, x))
+            self.emit("*%s %s %s" % (q, r.choice(["=", "+=", "-="]), self.e_int("int", 1, PC())))
+            self.ind -= 1
+            self.emit("} else {")
+            self.emit("\t%s++" % x)
+            self.emit("}")
+        elif shape == 2:
+            i = self.fresh("i")
+            self.emit("for %s := 0; %s < %d; %s++ {" % (i, i, 1 + r.below(3), i))
+            self.ind += 1
+            self.emit("%s += %s" % (x, i))
+            self.emit("if %s == %d {" % (i, r.below(3)))
+            self.emit("\tbump(&%s, %s)" % (x, i))
+            self.emit("}")
+            self.ind -= 1
+            self.emit("}")
+        elif shape == 3:
+            p = self.fresh("p")
+            self.emit("var %s *int" % p)
+            self.emit("if %s {" % self.cond(1))
+            self.emit("\t%s = &%s" % (p, x))
+            self.emit("}")
+            self.emit("%s += %s" % (x, self.e_int("int", 1, PC())))
+            self.emit("if %s != nil {" % p)
+            self.emit("\t*%s += 3" % p)
+            self.emit("}")
+            self.declare(Var(p, "*int", private=False))
+        else:
+            self.emit("switch int(uint(%s) %% 3) {" % self.e_int("int", 1, PC()))
+            self.emit("case 0:")
+            self.emit("\tbump(&%s, 1)" % x)
+            self.emit("\tfallthrough")
+            self.emit("case 1:")
+            self.emit("\t%s *= 2" % x)
+            self.emit("default:")
+            self.emit("\t%s--" % x)
+            self.emit("}")
+        self.emit("obsI(%s)" % x)
+
+    def closure_body(self, params, results, nstm, d):
+        """generate a func literal body; returns (lines, eff)"""
+        saved_lines, saved_ind, saved_eff = self.lines, self.ind, self.eff
+        saved_loops = self.loops
+        self.lines, self.eff, self.loops = [], False, []
+        self.ind += 1
+        self.in_closure += 1
+        self.barriers.append(len(self.scopes))
+        self.push()
+        for (n, t) in params:
+            self.declare(Var(n, t, private=True))
+        self.ret_stack.append((results, False))
+        for _ in range(nstm):
+            self.stmt(d)
+        self.s_return(final=True)
+        self.ret_stack.pop()
+        self.pop()
+        self.barriers.pop()
+        self.in_closure -= 1
+        lines, eff = self.lines, self.eff
+        self.lines, self.ind, self.loops = saved_lines, saved_ind, saved_loops
+        self.eff = saved_eff or eff
+        return lines, eff
+
+    def s_closure(self, d):
+        r = self.rng
+        k = r.below(10)
+        if k < 5:
+            f = self.fresh("f")
+            a = self.fresh("a")
+            lines, eff = self.closure_body([(a, "int")], ["int"], r.below(3), d - 1)
+            self.emit("%s := func(%s int) int {" % (f, a))
+            self.lines += lines
+            self.emit("}")
+            self.emit("_ = %s" % f)
+            v = Var(f, "func(int) int", private=True, assignable=False)
+            v.pure = not eff
+            self.declare(v)
+            if r.chance(2, 3):
+                self.emit("obsI(%s(%s))" % (f, self.e_int("int", 1, PB2() if eff else PB1())))
+        elif k < 7:
+            lines, eff = self.closure_body([], [], 1 + r.below(3), d - 1)
+            self.emit("func() {")
+            self.lines += lines
+            self.emit("}()")
+        else:
+            # closures made in a loop, capturing the per-iteration loop variable
+            fs = self.fresh("fs")
+            i = self.fresh("i")
+            self.emit("var %s []func() int" % fs)
+            self.emit("for %s := 0; %s < %d; %s++ {" % (i, i, 1 + r.below(4), i))
+            self.ind += 1
+            self.push()
+            self.declare(Var(i, "int", private=False, assignable=False))
+            lines, eff = self.closure_body([], ["int"], r.below(2), d - 1)
+            self.emit("%s = append(%s, func() int {" % (fs, fs))
+            self.lines += lines
+            self.emit("})")
+            if r.chance(1, 3):
+                self.emit("if %s == 1 {" % i)
+                self.emit("\t%s++" % i)
+                self.emit("}")
+            self.pop()
+            self.ind -= 1
+            self.emit("}")
+            g = self.fresh("g")
+            self.emit("for _, %s := range %s {" % (g, fs))
+            self.emit("\tobsI(%s())" % g)
+            self.emit("}")
+
+    def s_defer(self, d):
+        r = self.rng
+        if self.loops and r.chance(1, 2):
+            pass
+        k = r.below(10)
+        if k < 3:
+            self.emit("defer obsI(%s)" % self.e_int("int", 1, PA()))
+        elif k < 6:
+            a = self.fresh("a")
+            lines, eff = self.closure_body([(a, "int")], [], 1 + r.below(2), d - 1)
+            self.emit("defer func(%s int) {" % a)
+            self.lines += lines
+            self.emit("}(%s)" % self.e_int("int", 1, PA()))
+        else:
+            lines, eff = self.closure_body([], [], 1 + r.below(2), d - 1)
+            self.emit("defer func() {")
+            self.lines += lines
+            self.emit("}()")
+
+    def s_panic(self, d):
+        r = self.rng
+        self.emit("if %s {" % self.cond(1))
+        if r.chance(1, 2):
+            self.emit("\tpanic(%s)" % go_str(r.choice(["boom", "x", "bad state"])))
+        else:
+            self.emit("\tpanic(%s)" % self.e_int("int", 1, PC()))
+        self.emit("}")
+
+    def s_return(self, final=False):
+        r = self.rng
+        results, named = self.ret_stack[-1]
+        if not results:
+            if not final:
+                self.emit("return")
+            return
+        if named and r.chance(1, 2):
+            for (n, t) in zip(self.result_names, results):
+                if r.chance(1, 2):
+                    self.emit("%s = %s" % (n, self.e(t, 2, PA())))
+            self.emit("return")
+            return
+        if len(results) >= 2 and not final and self.in_closure == 0:
+            hs = [h for h in self.pg.helpers if h.results == results]
+            if hs and r.chance(1, 3):
+                h = r.choice(hs)
+                self.emit("return %s" % self.call(h, 1, PB2() if h.eff else PB1()))
+                return
+        # each result expression: at most one panicky operation over all of them, no calls
+        prof = PA()
+        es = []
+        for t in results:
+            es.append(self.e(t, 2, prof))
+            prof = Prof(0, prof.panicky, True)
+        self.emit("return %s" % ", ".join(es))
+
+    def s_cond_return(self, d):
+        self.emit("if %s {" % self.cond(1))
+        self.ind += 1
+        self.s_return()
+        self.ind -= 1
+        self.emit("}")
+
+    def stmt(self, d):
+        r = self.rng
+        if self.budget <= 0 or d <= 0:
+            self.budget -= 1
+            return r.choice([self.s_assign, self.s_obs, self.s_obs, self.s_agg])(d)
+        self.budget -= 1
+        table = [
+            (14, self.s_decl), (14, self.s_assign), (8, self.s_agg), (10, self.s_obs), (8, self.s_call),
+            (3, self.s_tuple), (10, self.s_if), (10, self.s_for), (5, self.s_switch), (3, self.s_goto),
+            (6, self.s_addr), (5, self.s_closure), (2, self.s_panic), (3, self.s_cond_return),
+        ]
+        if self.loops:
+            table.append((8, self.s_jump))
+        if self.in_closure == 0 or r.chance(1, 3):
+            table.append((3, self.s_defer))
+        tot = sum(w for w, _ in table)
+        k = r.below(tot)
+        for w, f in table:
+            if k < w:
+                return f(d)
+            k -= w
+
+    def visible(self):
+        seen = {}
+        bar = self.barriers[-1] if self.barriers else 0
+        for si, sc in enumerate(self.scopes):
+            for v in sc:
+                if si < bar and v.private and not v.is_global:
+                    seen.pop(v.name, None)
+                    continue
+                seen[v.name] = v
+        return list(seen.values())
+
+    def generate(self):
+        """returns the source text of the function"""
+        r = self.rng
+        self.barriers = []
+        self.result_names = []
+        self.push()
+        ps = []
+        for (n, t) in self.params:
+            private = t in INT_RANGE or t in ("bool", "string")
+            if private and r.chance(1, 3):
+                private = False
+            self.declare(Var(n, t, private=private))
+            ps.append("%s %s" % (n, t))
+        if self.named:
+            rs = []
+            for i, t in enumerate(self.results):
+                n = "r%d" % i
+                self.result_names.append(n)
+                self.declare(Var(n, t, private=False))
+                rs.append("%s %s" % (n, t))
+            sig = "(%s)" % ", ".join(rs)
+        elif len(self.results) == 1:
+            sig = self.results[0]
+        elif self.results:
+            sig = "(%s)" % ", ".join(self.results)
+        else:
+            sig = ""
+        if self.recovering:
+            body = []
+            saved = self.lines
+            self.lines = []
+            self.emit("defer func() {")
+            self.emit("\tif e := recover(); e != nil {")
+            self.ind += 2
+            self.barriers.append(len(self.scopes))
+            self.in_closure += 1
+            self.s_obs(1)
+            for (n, t) in zip(self.result_names, self.results):
+                if r.chance(2, 3):
+                    self.emit("%s = %s" % (n, self.e(t, 1, PC())))
+            if r.chance(1, 6):
+                self.emit("panic(e)")
+            self.in_closure -= 1
+            self.barriers.pop()
+            self.ind -= 2
+            self.emit("\t}")
+            self.emit("}()")
+            body = self.lines
+            self.lines = saved + body
+        n = 3 + r.below(6)
+        for _ in range(n):
+            self.stmt(3)
+        self.s_return(final=True)
+        if self.results and not self.lines[-1].strip().startswith("return"):
+            self.emit("return " + ", ".join(self.zero_lit(t) for t in self.results))
+        self.pop()
+        pool = ["\tvar %s %s = %d" % (n, ty, v) for (ty, v), n in self.pool.items()]
+        pool += ["\t_ = %s" % n for n in self.pool.values()]
+        return "func %s(%s) %s {\n%s\n}\n" % (self.name, ", ".join(ps), sig, "\n".join(pool + self.lines))
+
+    def zero_lit(self, t):
+        if t in INT_RANGE:
+            return "0"
+        if t == "bool":
+            return "false"
+        if t == "string":
+            return '""'
+        return self.zero_of(t)
+
+
+class PGen:
+    """One generated program: prelude + globals + helpers + entry functions."""
+
+    def __init__(self, seed, nentries=24, nhelpers=6):
+        self.rng = vlib.SplitMix(seed)
+        r = self.rng
+        self.helpers = []
+        self.globals = []
+        self.entries = []      # (name, [param types], [result types])
+        self.src = []
+        gl = []
+        for i, (t, init) in enumerate([("int", "%d" % r.below(9)), ("string", go_str(r.choice(STR_POOL))), ("bool", "false"),
+                                       ("int", "0")]):
+            name = "G%d" % i
+            self.globals.append(Var(name, t, private=False, is_global=True))
+            gl.append((name, t, init))
+        self.global_inits = gl
+        parts = [PRELUDE % {"c0": r.below(7), "c1": 1 + r.below(5)}]
+        parts.append("var (\n" + "\n".join("\t%s %s = %s" % g for g in gl) + "\n)\n")
+        scalar = ["int", "int", "int", "bool", "string", "int8", "uint8", "int32", "uint64", "int64", "uint16"]
+        for i in range(nhelpers):
+            np = 1 + r.below(3)
+            kinds = scalar + ["*int", "[]int", "*S0", "S0", "[3]int", "I0", "func(int) int"]
+            params = [("p%d" % j, r.choice(kinds)) for j in range(np)]
+            nres = r.choice([0, 1, 1, 1, 2, 2, 3])
+            results = [r.choice(["int", "int", "string", "bool", "int"]) for _ in range(nres)]
+            if nres == 1 and r.chance(2, 3):
+                results = ["int"]
+            fg = FnGen(self, r.fork("h%d" % i), "h%d" % i, params, results, named=nres > 0 and r.chance(1, 4),
+                       is_entry=False, budget=8 + r.below(8))
+            fg.recovering = fg.named and r.chance(1, 2)
+            parts.append(fg.generate())
+            self.helpers.append(Helper("h%d" % i, params, results, fg.eff or any(t in ("*int", "[]int", "*S0", "I0", "func(int) int") for _, t in params)))
+        for i in range(nentries):
+            np = r.below(4)
+            params = [("a%d" % j, r.choice(scalar)) for j in range(np)]
+            nres = r.choice([1, 1, 2, 2, 3])
+            results = [r.choice(["int", "int", "string", "bool", "int", "int8", "uint32", "int64"]) for _ in range(nres)]
+            named = r.chance(2, 5)
+            fg = FnGen(self, r.fork("f%d" % i), "f%d" % i, params, results, named=named, is_entry=True, budget=12 + r.below(14))
+            fg.recovering = named and r.chance(2, 3)
+            parts.append(fg.generate())
+            self.entries.append(("f%d" % i, [t for _, t in params], results))
+        self.prog_src = "\n".join(parts)
+
+    # ---------------------------------------------------------------- input vectors
+    def vectors(self, ptypes, n):
+        r = self.rng
+        out = []
+        for k in range(n):
+            vec = []
+            for t in ptypes:
+                if t in INT_RANGE:
+                    lo, hi = INT_RANGE[t]
+                    if k == 0:
+                        v = 0
+                    elif k == 1:
+                        v = 1
+                    elif k == 2:
+                        v = max(lo, -1) if lo < 0 else 2
+                    else:
+                        c = r.below(10)
+                        if c < 6:
+                            v = r.below(12) - 3
+                        elif c < 8:
+                            v = r.below(2000) - 1000
+                        elif c == 8:
+                            v = r.choice([lo, hi, hi - 1, lo + 1])
+                        else:
+                            v = r.next() % (hi - lo + 1) + lo
+                        v = max(lo, min(hi, v))
+                    vec.append(("i", v))
+                elif t == "bool":
+                    vec.append(("b", (k + r.below(2)) % 2 == 0))
+                else:
+                    vec.append(("s", r.choice(STR_POOL) if k else ""))
+            out.append(vec)
+            if not ptypes:
+                break
+        return out
+
+
+def go_lit(kind, v, ty):
+    if kind == "i":
+        if ty == "int":
+            return "%d" % v
+        return "%s(%d)" % (ty, v)
+    if kind == "b":
+        return "true" if v else "false"
+    return go_str(v)
+
+
+def lean_arg(kind, v):
+    if kind == "i":
+        return "i:%d" % v
+    if kind == "b":
+        return "b:%d" % (1 if v else 0)
+    return "s:" + vlib.hexs(v)
+
+
+MAIN_HEAD = '''package main
+
+import (
+	"fmt"
+	"os"
+	"runtime"
+	"strings"
+)
+
+var trace []string
+
+//go:noinline
+func obsI(x int) { trace = append(trace, fmt.Sprintf("main.obsI(%d)", x)) }
+
+//go:noinline
+func obsS(x string) { trace = append(trace, "main.obsS("+showS(x)+")") }
+
+//go:noinline
+func obsB(x bool) { trace = append(trace, fmt.Sprintf("main.obsB(%v)", x)) }
+
+func showS(s string) string {
+	if s == "" {
+		return "s-"
+	}
+	return fmt.Sprintf("s%x", s)
+}
+
+func show(v any) string {
+	switch v := v.(type) {
+	case string:
+		return showS(v)
+	case bool:
+		return fmt.Sprintf("%v", v)
+	}
+	return fmt.Sprintf("%d", v)
+}
+
+func classify(r any) string {
+	if e, ok := r.(runtime.Error); ok {
+		m := e.Error()
+		switch {
+		case strings.Contains(m, "integer divide by zero"):
+			return "rt:div"
+		case strings.Contains(m, "index out of range"):
+			return "rt:index"
+		case strings.Contains(m, "slice bounds out of range"):
+			return "rt:slice"
+		case strings.Contains(m, "nil pointer dereference"):
+			return "rt:nil"
+		case strings.Contains(m, "interface conversion"):
+			return "rt:assert"
+		case strings.Contains(m, "makeslice: len"):
+			return "rt:makeslice-len"
+		case strings.Contains(m, "makeslice: cap"):
+			return "rt:makeslice-cap"
+		case strings.Contains(m, "negative shift amount"):
+			return "rt:negshift"
+		case strings.Contains(m, "comparing uncomparable"):
+			return "rt:uncomparable"
+		}
+		return "rt:other:" + m
+	}
+	switch v := r.(type) {
+	case string:
+		return "custom:string:" + showS(v)
+	case int, int8, int16, int32, int64, uint, uint8, uint16, uint32, uint64:
+		return fmt.Sprintf("custom:int:%d", v)
+	case bool:
+		return fmt.Sprintf("custom:bool:%v", v)
+	}
+	return "custom:other"
+}
+
+func runCase(f func() string) {
+	trace = trace[:0]
+	resetGlobals()
+	out := func() (out string) {
+		defer func() {
+			if r := recover(); r != nil {
+				out = "PANIC " + classify(r)
+			}
+		}()
+		return f()
+	}()
+	fmt.Fprintf(w, "%s|%s|%s\\n", strings.Join(trace, ";"), out, globals())
+}
+
+var w = os.Stdout
+'''
+
+
+def make_main(pg, cases):
+    """cases: [(fname, ptypes, rtypes, vec)] -> main.go text"""
+    out = [MAIN_HEAD]
+    out.append("func resetGlobals() {")
+    for (n, t, init) in pg.global_inits:
+        out.append("\t%s = %s" % (n, init))
+    out.append("}\n")
+    names = sorted(n for (n, t, i) in pg.global_inits)
+    out.append("func globals() string {")
+    out.append("\treturn " + ' + " " + '.join('"%s=" + show(%s)' % (n, n) for n in names))
+    out.append("}\n")
+    out.append("func main() {")
+    for (fname, ptypes, rtypes, vec) in cases:
+        args = ", ".join(go_lit(k, v, t) for (k, v), t in zip(vec, ptypes))
+        rs = ", ".join("x%d" % i for i in range(len(rtypes)))
+        shows = ' + " " + '.join("show(x%d)" % i for i in range(len(rtypes)))
+        out.append("\trunCase(func() string { %s := %s(%s); return \"RET \" + %s })" % (rs, fname, args, shows))
+    out.append("}")
+    return "\n".join(out) + "\n"
+
+
+if __name__ == "__main__":
+    seed = int(sys.argv[1]) if len(sys.argv) > 1 else 1
+    pg = PGen(seed)
+    cases = []
+    for (fname, pt, rt) in pg.entries:
+        for vec in pg.vectors(pt, 6):
+            cases.append((fname, pt, rt, vec))
+    d = sys.argv[2] if len(sys.argv) > 2 else "/tmp/c01x/gen"
+    os.makedirs(d, exist_ok=True)
+    open(os.path.join(d, "prog.go"), "w").write(pg.prog_src)
+    open(os.path.join(d, "stub.go"), "w").write(STUB)
+    open(os.path.join(d, "main.go"), "w").write(make_main(pg, cases))
+    with open(os.path.join(d, "cases.txt"), "w") as f:
+        for (fname, pt, rt, vec) in cases:
+            f.write("%s %s\n" % (fname, " ".join(lean_arg(k, v) for k, v in vec)))
+    print(len(cases), "cases")
